@@ -106,3 +106,11 @@ chk("C07", "exploration",
     "the numeric clause; LAPACK/FFT/log-based templates judged at rel 1e-9; explicit unit strippers and unit-keeping constant "
     "constructors (ones_like) are outside the claim.",
     "catalogue enumeration x Hypothesis data, metamorphic change of units (bit-exact dyadic + tolerant)", "DESIGN.md §3 C07")
+chk("C16", "exploration",
+    "Hypothesis cases over 12 shapes (0-d to 3-d incl. (1,), (1,1), empty), 11 units, dtypes, names and 16 indexing forms: "
+    "constructors (view vs copy), indexing and iteration (class, units, name, values, view-ness), ~35 view/copy accessors judged "
+    "with np.shares_memory and write-through, ~60 unit-returning operations for the class/shape invariant, coercion of mixed-unit "
+    "lists against independent scales; plus the invariant over every unit-carrying leaf produced by the NumPy catalogue.",
+    "Trusted: np.shares_memory; the invariant is asserted exactly as stated (shape () => unyt_quantity, size > 1 => not a quantity); "
+    "0-d operands are built as quantities (an explicit unyt_array(0-d ndarray) keeps the class the caller asked for).",
+    "Hypothesis shape/index/accessor generation with class, aliasing and write-through invariants", "DESIGN.md §3 C16")
